@@ -17,13 +17,41 @@ RULE = ('generated documents with global comments before, inside and after the s
 ASSUMPTIONS = ['the closure of a filter is C11\'s subject (taken from TokenCategory.valid)']
 
 
+ANC_DESC = []        # (ancestor index, descendant index) pairs of the documented tree, from the Lean specification
+FIXED_PAIRS = []
+
+
+def _anc_desc(ctx):
+    import docrun
+    from kernpy.core.tokens import TokenCategory as TC
+    cats = list(TC)
+    if not ANC_DESC:
+        for i, c in enumerate(cats):
+            for j in docrun.valid_idx([c], None):
+                if j != i:
+                    ANC_DESC.append((i, j))
+        FIXED_PAIRS.extend(ANC_DESC[:3])
+
+
 def explore(ctx, depth):
     import docrun, gen
+    docrun._DRIVER = ctx.driver
+    _anc_desc(ctx)
     import kernpy as kp
     from kernpy.core.tokens import TokenCategory as TC
     cats = list(TC)
     rng = ctx.rng
     cases = docrun.make_cases(ctx, 40 if depth == 'quick' else 400)
+    # invisible barlines (`=1-`, `==-`): tokens like any other for the listing (added after seeded change C17_r5_2: a `hidden` test shared with the
+    # exporter made the listing skip them)
+    hdocs = [gen.DocGen(rng, profile='core', max_measures=3).make() for _ in range(6 if depth == 'quick' else 60)]
+    for hd in hdocs:
+        for row in hd['rows']:
+            if row['kind'] == 'cells' and row['rk'] == 'bar' and rng.random() < 0.6:
+                for c in row['cells']:
+                    if c.get('k') == 'bar':
+                        c['hidden'] = True
+    cases += docrun.make_cases(ctx, 0, docs=hdocs)
     # expected (encoding, category) of every cell from the abstract description
     cells = [c for case in cases for c in gen.all_cells(case.adoc)]
     for c, r in zip(cells, ctx.driver.ask([{'op': 'abs.tokof', 'cell': gen.clean(c)} for c in cells])):
@@ -71,8 +99,15 @@ def explore(ctx, depth):
             continue
         full = exp
         filters = [[c] for c in cats] + [rng.sample(cats, rng.randint(2, 6)) for _ in range(4)] + [[]]
+        # a category together with one of its own descendants (and the other way round), a category twice: the closure of the filter is a union
+        # (added after seeded change C17_r5_1: "categories already covered by another one" were dropped the wrong way round)
+        for a, b in rng.sample(ANC_DESC, 4 if depth == 'quick' else 12):
+            filters += [[cats[a], cats[b]], [cats[b], cats[a]]]
+        filters += [[cats[a], cats[a]] for a in rng.sample(range(len(cats)), 2)] + [[cats[a] for a, b in FIXED_PAIRS], [TC.CORE, TC.NOTE_REST], [TC.COMMENTS, TC.LINE_COMMENTS],
+                                                                                      [TC.PITCH, TC.CORE]]
         for f in filters:
-            closure = set(c.value - 1 for c in TC.valid(include=f)) if f else set()
+            # the closure comes from the Lean specification of the documented tree (Spec.selected), not from kernpy's own `valid`
+            closure = set(docrun.valid_idx(f, None)) if f else set()
             want = [t for t in full if t[1] in closure]
             g = call(lambda: [[t.encoding, t.category.value - 1] for t in case.doc.get_all_tokens(filter_by_categories=f)])
             ctx.seen({'text': case.text, 'filter': [c.name for c in f], 'clause': 'filtered'}, nt and 0 < len(want) < len(full))
